@@ -152,6 +152,12 @@ def call_shape(chk):
 _n = [0]
 
 
+# field i of a generated class is called FIELD_NAMES[i]: declaration order is deliberately
+# neither alphabetical nor reverse-alphabetical (Extras!Name(i) = "f<i>" on the spec side)
+FIELD_NAMES = ['zeta', 'alpha', 'mid', 'beta']
+SPEC_NAME = {n: 'f%d' % (i + 1) for i, n in enumerate(FIELD_NAMES)}
+
+
 def materialise(d, lib):
     """Class + instance for a TLC-generated definition."""
     _n[0] += 1
@@ -161,7 +167,7 @@ def materialise(d, lib):
     if lib == 'dc':
         specs = []
         for i, f in enumerate(fields):
-            fname = 'f%d' % (i + 1)
+            fname = FIELD_NAMES[i]
             kw = {'repr': f['repr']}
             if f['dflt'] == 'value':
                 kw['default'] = 0
@@ -172,7 +178,7 @@ def materialise(d, lib):
     else:
         attrs = {}
         for i, f in enumerate(fields):
-            fname = 'f%d' % (i + 1)
+            fname = FIELD_NAMES[i]
             kw = {'repr': f['repr']}
             if f['dflt'] == 'value':
                 kw['default'] = 0
@@ -183,7 +189,7 @@ def materialise(d, lib):
     cls.__module__ = 'verif_c17gen'
     cls.__qualname__ = name
     for i, f in enumerate(fields):
-        fname = 'f%d' % (i + 1)
+        fname = FIELD_NAMES[i]
         if f['dflt'] == 'none':
             vals[fname] = 7
         elif f['dflt'] == 'value':
@@ -238,7 +244,7 @@ def extras(chk):
             except pyterm.ParseError as e:
                 chk.violation('C17.syntax', 'not an expression (%s): %r' % (e, desc), desc)
                 continue
-            names = [k for k, _ in obs[3]] if obs[0] == 'call' else ['<not a call>']
+            names = [SPEC_NAME.get(k, k) for k, _ in obs[3]] if obs[0] == 'call' else ['<not a call>']
             name_ok = obs[0] == 'call' and obs[1] == 'verif_c17gen.' + cls.__name__ and not obs[2]
             try:
                 back = eval(out, {'verif_c17gen': genmod})
